@@ -29,6 +29,29 @@ def census(lib):
     return sorted(syms)
 
 
+# libc functions that keep process-wide mutable state (POSIX "need not be thread-safe" list and the random-number families):
+# a library that calls one of them has hidden global state even if its own object files have no writable statics
+NON_REENTRANT = set("""rand srand random srandom initstate setstate drand48 erand48 lrand48 nrand48 mrand48 jrand48 srand48 seed48 lcong48
+strtok asctime ctime gmtime localtime strerror strsignal setenv putenv unsetenv clearenv tmpnam tempnam getlogin ttyname readdir
+getpwnam getpwuid getpwent getgrnam getgrgid getgrent gethostbyname gethostbyaddr getservbyname getservbyport getprotobyname getnetbyname
+setlocale ecvt fcvt gcvt l64a a64l crypt encrypt setkey hcreate hsearch hdestroy lgamma lgammaf lgammal getopt getopt_long
+basename dirname ptsname getdate inet_ntoa ether_ntoa ether_aton nl_langinfo catgets dbm_fetch dlerror getutxent mblen mbtowc wctomb mbrlen
+signal sigaction umask chdir fchdir""".split())
+
+
+def imports(lib):
+    out = subprocess.run(["nm", "-u", lib["lib"]], stdout=subprocess.PIPE, stderr=subprocess.DEVNULL).stdout.decode()
+    syms, cur = [], ""
+    for l in out.splitlines():
+        if l.endswith(":"):
+            cur = l[:-1].split("-")[-1]
+            continue
+        p = l.split()
+        if len(p) == 2 and p[0] == "U":
+            syms.append((cur, p[1].split("@")[0]))
+    return syms
+
+
 def explorer(lib):
     return build.build_prog("c16", RT, lib, cc="clang", opt="-O1", nosan=True, link=["-lpthread", "-no-pie"], extra=["-I" + os.path.join(common.VERIF, "harness", "sched")],
                             per_source_extra={"rt.c": ["-fno-builtin"]})
@@ -57,6 +80,11 @@ def run(ctx):
     for be in ("asm", "c64", "c32", "dxor", "generic"):
         cens[be] = census(build.build_lib(be))
     cens["generic+checker"] = census(build.build_lib("generic", checker=True))
+    for be in ("asm", "generic"):
+        for obj, sym in imports(build.build_lib(be)):
+            ctx.stat("imports_examined", 1)
+            if sym in NON_REENTRANT:
+                ctx.fail("global-state-via-libc:%s:%s:%s" % (be, obj, sym), "the library object %s calls %s(), a libc function that keeps process-wide mutable state" % (obj, sym))
     for be, syms in cens.items():
         ctx.stat("census_objects_examined", 1)
         if be.endswith("+checker"):
@@ -153,6 +181,6 @@ def run(ctx):
                rule="programs = every unordered pair of a 45-operation alphabet (one operation per thread) with per-thread inputs to preemption bound 2 and with all inputs shared to bound 1 (2 in thorough), plus triples to bound 1; "
                     "every schedule within the bound is executed on the real library under the own runtime; states = programs, transitions = schedules; "
                     "cold-start pass: the same pairs to bound 1 with every schedule run in a freshly forked process that has executed no library code before (first-call behaviour); "
-                    "writable static storage of every object file of the 5 back ends must be empty",
+                    "writable static storage of every object file of the 5 back ends must be empty, and the library must import no libc function with process-wide state (denylist of ~100 names)",
                exhaustive=True)
     return LEVEL, cov
